@@ -52,6 +52,9 @@ type APlan struct {
 	// FromFiles: the Attestor is built by NewAttestor from two PEM files (one root each, with text around the
 	// PEM blocks) instead of from a ready-made pool
 	FromFiles bool `json:"from_files,omitempty"`
+	// Genuine: the slot certificate carries the honest signature its device key made in a scheme the attestation
+	// does not admit: ECDSA / Ed25519 device keys, or RSASSA-PSS by an RSA device key (mutation genuine_pss)
+	Genuine bool `json:"genuine,omitempty"`
 }
 
 var digestInfo = map[string][2][]byte{ // with NULL, without NULL
@@ -68,13 +71,13 @@ var rsaLabel = map[string]x509.SignatureAlgorithm{"sha1": x509.SHA1WithRSA, "sha
 
 var mutations = []string{"none", "none", "none", "pad_byte", "pad_byte", "block_type", "leading", "separator", "trailing_garbage", "shift_left", "short_pad_zero_tail",
 	"digestinfo_byte", "digestinfo_byte", "digest_byte", "other_hash_info", "wrong_digest", "sig_bit", "tbs_bit", "no_padding", "all_zero_pad",
-	"sig_extra_tail", "sig_truncated", "sig_leading_zero", "digestinfo_trailing_in_seq", "algid_trailing", "only_digestinfo"}
+	"sig_extra_tail", "sig_truncated", "sig_leading_zero", "digestinfo_trailing_in_seq", "algid_trailing", "only_digestinfo", "genuine_pss"}
 
 func pick[T any](r *sim.Rng, xs []T) T { return xs[r.Intn(len(xs))] }
 
 func genA(r *sim.Rng, tier string) any {
-	p := &APlan{Bits: pick(r, []int{1024, 1024, 1536, 2048, 2048, 2048, 3072, 4096, 0}), Chain: pick(r, []string{"root", "root", "root", "second_root", "other_ca", "lookalike_ca", "self_signed"}),
-		DevWindow: pick(r, []string{"valid", "valid", "valid", "lapsing", "expired", "not_yet"}), Hash: pick(r, []string{"sha1", "sha256", "sha256", "sha384", "sha512"}),
+	p := &APlan{Bits: pick(r, []int{1024, 1024, 1536, 2048, 2048, 2048, 3072, 4096, 0, -1}), Chain: pick(r, []string{"root", "root", "root", "second_root", "other_ca", "lookalike_ca", "self_signed"}),
+		DevWindow: pick(r, []string{"valid", "valid", "valid", "lapsing", "expired", "not_yet", "starting"}), Hash: pick(r, []string{"sha1", "sha256", "sha256", "sha384", "sha512"}),
 		Label: "rsa", Variant: pick(r, []string{"null", "nonull"}), Mutation: pick(r, mutations)}
 	if tier == "quick" && p.Bits > 2048 && r.Bool(0.7) {
 		p.Bits = 2048
@@ -98,6 +101,7 @@ func genA(r *sim.Rng, tier string) any {
 	p.CritExt = r.Bool(0.12)
 	p.Prior = r.Bool(0.3)
 	p.FromFiles = r.Bool(0.3)
+	p.Genuine = r.Bool(0.5)
 	p.LapseSec = int64(2*r.Range(50, 5000) + 1)
 	switch r.Intn(4) {
 	case 0:
@@ -108,6 +112,10 @@ func genA(r *sim.Rng, tier string) any {
 		p.Clock = []int64{int64(r.Range(0, 1000)), 40 * 365 * 86400} // far beyond the root's validity
 	default:
 		p.Clock = []int64{p.LapseSec + 1, p.LapseSec + 2}
+	}
+	if p.DevWindow == "starting" {
+		// around the first valid instant: minutes before, one second before, from then on
+		p.Clock = []int64{max(p.LapseSec-int64(r.Range(2, 400)), 0), p.LapseSec - 1, p.LapseSec, p.LapseSec + 1}
 	}
 	return p
 }
@@ -200,7 +208,7 @@ func buildEM(p *APlan, k int, tbs []byte) (em []byte, wellFormed bool, ok bool) 
 	wellFormed = true
 	npad := padEnd - 2
 	switch p.Mutation {
-	case "none", "sig_bit", "tbs_bit", "sig_extra_tail", "sig_truncated", "sig_leading_zero":
+	case "none", "sig_bit", "tbs_bit", "sig_extra_tail", "sig_truncated", "sig_leading_zero", "genuine_pss":
 	case "pad_byte":
 		j := 2 + p.Pos%npad
 		v := byte(p.Val)
@@ -395,6 +403,8 @@ func execA(t *testing.T, raw json.RawMessage) *sim.Outcome {
 	var rsaPriv *rsa.PrivateKey
 	if p.Bits == 0 {
 		devPriv = keys.EC(256, "device")
+	} else if p.Bits < 0 {
+		devPriv = keys.Ed("device")
 	} else {
 		rsaPriv = keys.RSA(p.Bits, p.Pos)
 		if p.KeyTag != "" {
@@ -411,6 +421,8 @@ func execA(t *testing.T, raw json.RawMessage) *sim.Outcome {
 		nb, na = sim.Epoch.Add(50*365*24*time.Hour), sim.Epoch.Add(51*365*24*time.Hour)
 	case "lapsing":
 		na = sim.Epoch.Add(time.Duration(p.LapseSec) * time.Second)
+	case "starting":
+		nb = sim.Epoch.Add(time.Duration(p.LapseSec) * time.Second)
 	}
 	devT := &x509.Certificate{SerialNumber: big.NewInt(0xf9), Subject: pkix.Name{CommonName: "Yubico PIV Attestation"}, NotBefore: nb, NotAfter: na,
 		IsCA: true, BasicConstraintsValid: true, KeyUsage: x509.KeyUsageCertSign | x509.KeyUsageDigitalSignature}
@@ -446,6 +458,7 @@ func execA(t *testing.T, raw json.RawMessage) *sim.Outcome {
 	slotT := &x509.Certificate{SerialNumber: big.NewInt(int64(p.Pos) + 1), Subject: pkix.Name{CommonName: "YubiKey PIV Attestation 9a"},
 		NotBefore: nb, NotAfter: na}
 	var tbs []byte
+	var genuine *x509.Certificate // honestly signed by a device key / in a scheme that is not admitted
 	if rsaPriv != nil {
 		slotT.SignatureAlgorithm = x509.SHA256WithRSA
 		der, err := x509.CreateCertificate(rand.Reader, slotT, dev, slotKey.Public(), rsaPriv)
@@ -463,6 +476,14 @@ func execA(t *testing.T, raw json.RawMessage) *sim.Outcome {
 		}
 		sc, _ := x509.ParseCertificate(der)
 		tbs = append([]byte(nil), sc.RawTBSCertificate...)
+		genuine = sc
+	}
+	if rsaPriv != nil && p.Mutation == "genuine_pss" {
+		slotT.SignatureAlgorithm = x509.SHA256WithRSAPSS
+		der, err := x509.CreateCertificate(rand.Reader, slotT, dev, slotKey.Public(), rsaPriv)
+		if err == nil {
+			genuine, _ = x509.ParseCertificate(der)
+		}
 	}
 	label := x509.UnknownSignatureAlgorithm
 	labelClass := "reject"
@@ -561,6 +582,13 @@ func execA(t *testing.T, raw json.RawMessage) *sim.Outcome {
 		sig = []byte{0x30, 0x06, 0x02, 0x01, 0x01, 0x02, 0x01, 0x01}
 	}
 	slot := &x509.Certificate{SignatureAlgorithm: label, RawTBSCertificate: tbs, Signature: sig}
+	if genuine != nil && (rsaPriv == nil && p.Genuine || rsaPriv != nil && p.Mutation == "genuine_pss") {
+		// the whole honest certificate: its signature verifies under the device key, but not as RSA PKCS#1 v1.5
+		slot = genuine
+		wellFormed = false
+		labelClass = "reject"
+		p.Label = "genuine:" + genuine.SignatureAlgorithm.String()
+	}
 
 	// the genuine device attested first on the same Attestor (Prior)
 	var priorDev, priorSlot *x509.Certificate
